@@ -165,10 +165,14 @@ PROPS = {
         technique="metamorphic property-based testing (any partition of a stream == the unsplit stream) on the message loader, cross-checked against an independent stream decoder; libFuzzer-generated streams and cut points",
         level_text=("Exploration: streams of 1-6 generated valid messages of varied sizes/byte orders, optionally followed by a corrupted message and further bytes, are fed to two loaders - whole and "
                     "under a generated partition (1-byte, message boundaries, inside fixed headers, fixed step, random cuts; with or without honouring the loader's read-size hint). Popped frames, "
-                    "their bytes and the corruption flag must be identical and equal the independent decoding. Samples the space of (stream, partition) pairs."),
-        level_note="Loader level only in this check (DBusMessageLoader via libdbus-internal); the handshake-to-message boundary of the socket transport is exercised by the in-process bus targets. Trusts engine/wire.cc.",
-        rule=("case = (stream, ordered cut points) decoded from fuzzer input. Non-trivial = >=2 messages and >=1 cut strictly inside a message; distinct = FNV-1a of stream bytes + cut list."),
-        phases=[P(kind="fuzz", bin="c11_chunk", runs_quick=40000, runs_thorough=640000, workers_quick=8, workers_thorough=16, max_len=4096, rss=6000, timeout=60)],
+                    "their bytes and the corruption flag must be identical and equal the independent decoding. Transport level (c11_transport): a server-side DBusConnection on a socketpair receives a pipelined client "
+                    "handshake (three variants) immediately followed by such a stream, written once whole and once under a generated partition of handshake+stream (1-byte, cuts inside 'BEGIN\\r\\n' and the first fixed header, BEGIN and message "
+                    "bytes in one write, boundaries only, fixed step, random); dispatched messages, their order and the disconnect decision must agree between the two runs and with the independent decoding. Samples the space of (stream, partition) pairs."),
+        level_note="DBusMessageLoader via libdbus-internal, and the unix socket transport on a socketpair (no TCP, no nonce transport). Trusts engine/wire.cc.",
+        rule=("case = (stream, ordered cut points) decoded from fuzzer input. Non-trivial = loader level: >=2 messages and >=1 cut strictly inside a message; transport level: the write carrying the last byte of BEGIN also carries message bytes, or a cut falls inside BEGIN\\r\\n or the first 16 message bytes; distinct = FNV-1a of stream bytes + cut list."),
+        phases=[P(kind="fuzz", bin="c11_chunk", runs_quick=40000, runs_thorough=640000, workers_quick=8, workers_thorough=16, max_len=4096, rss=6000, timeout=60),
+                # transport level: the handshake-to-message boundary (server-side DBusConnection on a socketpair, chosen write sizes)
+                P(kind="fuzz", bin="c11_transport", runs_quick=16000, runs_thorough=256000, workers_quick=8, workers_thorough=16, max_len=2048, rss=6000, timeout=60)],
         floor_quick=3000, floor_thorough=15000,
     ),
     "C12": P(
